@@ -146,8 +146,11 @@ Definition compatible_psk_at (T : tables) (suites : list suite) (vc vs : vw) (h 
   ver_eqb ver (3, 4) && psk_listed vc h && psk_listed vs h &&
   existsb (fun su => suite_enabled vc ver su && suite_enabled vs ver su
                      && Bool.eqb (suite_prf384 su) (String.eqb h "sha384")) suites &&
-  ((has (VG vc F_psk_modes) "psk_ke" && has (VG vs F_psk_modes) "psk_ke") ||
-   (has (VG vc F_psk_modes) "psk_dhe_ke" && has (VG vs F_psk_modes) "psk_dhe_ke" && group_shared T vc vs ver "tls13")).
+  (* psk_dhe_ke is preferred when both allow it and then needs a shared group (the server does not fall back to
+     psk_ke when no group is shared: no demand for that case); psk_ke alone needs none *)
+  (if has (VG vc F_psk_modes) "psk_dhe_ke" && has (VG vs F_psk_modes) "psk_dhe_ke"
+   then group_shared T vc vs ver "tls13"
+   else has (VG vc F_psk_modes) "psk_ke" && has (VG vs F_psk_modes) "psk_ke").
 
 (* "share a protocol version and, for it, ...": read as the version TLS negotiates, the highest shared one *)
 Definition compatible (T : tables) (suites : list suite) (vc vs : vw) (cr ccr : cred) : bool :=
